@@ -18,8 +18,10 @@ TRUSTED = pc.TRUSTED_COMMON
 ASSUMPTIONS = ['"equals" for Content-Length is numeric equality under int()', 'client machine: .request is a GET request']
 D4 = 'D4-stale-content-length'
 D5 = 'D5-http10-transfer-encoding'
+D35 = 'D35-content-length-encoded-word'
 WITNESSES = [
 	(D5, {'k': 'framing', 'kind': 'client', 'ver': '1.0', 'cl': None, 'te': 'chunked', 'tr_announce': None, 'tr_fields': [], 'payload': '', 'cuts': [[]]}),
+	(D35, {'k': 'stream', 'kind': 'client', 's': b'HTTP/1.1 200 OK\r\nContent-Length: =?utf-8?q?3?=\r\n\r\nabc'.hex(), 'cuts': [[]]}),
 ]
 
 CL_FORMS = [None, 'right', 'small', 'large', 'repeat-same', 'repeat-diff', '+', '0pad', 'junk', 'neg', 'ws']
@@ -171,11 +173,13 @@ def _check_msg(m):
 	try:
 		n = int(h['content-length'].decode('latin-1'))
 	except ValueError:
+		if b'=?' in h['content-length']:
+			return 'delivered Content-Length %r is an RFC 2047 encoded word, not a number' % (h['content-length'],)
 		return 'delivered Content-Length %r is not a number' % (h['content-length'],)
 	if n != len(body):
 		return 'delivered Content-Length %r but %d body octets' % (h['content-length'], len(body))
 	if 'transfer-encoding' in h:
-		return 'delivered message still advertises Transfer-Encoding: %r' % (h['transfer-encoding'],)
+		return 'delivered message still advertises Transfer-Encoding: %r (protocol %s)' % (h['transfer-encoding'], '.'.join(map(str, m['protocol'])))
 	return None
 
 
@@ -217,9 +221,11 @@ def classify(c, o, fail):
 	if 'delivered Content-Length' in fail and c['k'] == 'framing' and c['cl'] is not None and c['te'] and c['te'].lower() == 'chunked' and c['ver'] == '1.1':
 		return D4
 	if 'still advertises Transfer-Encoding' in fail:
-		s = _stream(c)
-		if b' HTTP/1.0\r\n' in s or s.startswith(b'HTTP/1.0'):
+		m = __import__('re').search(r'\(protocol (\d+)\.(\d+)\)', fail)
+		if m and (int(m.group(1)), int(m.group(2))) < (1, 1):
 			return D5
+	if 'is an RFC 2047 encoded word' in fail:
+		return D35
 	return None
 
 
